@@ -1229,7 +1229,518 @@ def _replay_nb(qualname, case, clause, model, seed):
     return {"ran": True, "failed": False, "searched": tried, "detail": "real code satisfies every clause on the model inputs and the seeded inputs"}
 
 
-UNITS = [ParticipationRatio(), LocalAlignment(), PhaseQuotient(), DivergenceCurl(), Vibrability(), VectorDecompositionSq()]
+
+# ================================================================================================
+# vector_fft_corr
+
+VDSQ = "PyMatterSim.static.vector.vector_decomposition_sq"
+TCORR = "PyMatterSim.dynamic.time_corr.time_correlation"
+HEADERS = ["FFT", "T_FFT", "L_FFT"]
+AVE_COLS = ["q", "Sq", "Sq_T", "Sq_L"]
+
+
+def _vf_order(d):
+    return [f"q{c}" for c in range(d)] + ["q", "Sq"] + [f"FFT{c}" for c in range(d)] + [f"T_FFT{c}" for c in range(d)] + ["Sq_T"] \
+        + [f"L_FFT{c}" for c in range(d)] + ["Sq_L"]
+
+
+class FrameTables:
+    """What vector_decomposition_sq returns for frame s of the trajectory, as stated by its own contract (VectorDecompositionSq.ensures,
+    clauses a-d, f): the transform of frame s returned by conditional_sq is arbitrary — uninterpreted CQ(s,n,c), CQN(s,n) (>= 0), CSQ(s,n),
+    CF(s,n,c) (complex) — and with qhat = CQ/CQN (where CQN != 0)
+        q_c = round8(CQ), q = round8(CQN), Sq = round8(CSQ), FFT_c = round8(CF_c),
+        L_FFT_c = round8(qhat_c (qhat . CF)), T_FFT_c = round8(CF_c - qhat_c (qhat . CF)), Sq_L = round8(sum|L_c|^2), Sq_T = round8(sum|T_c|^2)
+    (rows with CQN = 0, where the callee's contract says nothing about L and T: unspecified values UL, UT, USL, UST).
+    The averaged table of frame s (clause f: one row per distinct rounded |q|, group means) enters only as "the averaged table the callee
+    returned": uninterpreted AVE(s, g, column) with G rows (G the same for every frame: precondition of vector_fft_corr, see NOT_DECIDED)."""
+
+    def __init__(self, d, Q, G):
+        self.d, self.Q, self.G = d, Q, G
+        I, R = z3.IntSort(), z3.RealSort()
+        f3 = lambda nm: z3.Function(nm, I, I, I, R)
+        f2 = lambda nm: z3.Function(nm, I, I, R)
+        self.CQ, self.CQN, self.CSQ = f3("CQ"), f2("CQN"), f2("CSQ")
+        self.CFre, self.CFim = f3("CF_re"), f3("CF_im")
+        self.ULre, self.ULim, self.UTre, self.UTim = f3("UL_re"), f3("UL_im"), f3("UT_re"), f3("UT_im")
+        self.USL, self.UST = f2("USL"), f2("UST")
+        self.AVE = f3("AVE")
+
+    def col(self, name):
+        """(s, n) -> value of column `name` of frame s's table at row n"""
+        d = self.d
+        z = sv.znum
+        r8 = lambda v: sv.round_dec(v, 8)
+        qn = lambda s, n: sv.absv(sv.SV(self.CQN(z(s), z(n))))
+        F = lambda s, n, c: sv.Cx(sv.SV(self.CFre(z(s), z(n), z(c))), sv.SV(self.CFim(z(s), z(n), z(c))))
+
+        def split(s, n):
+            qh = [sv.div(sv.SV(self.CQ(z(s), z(n), z(c))), qn(s, n)) for c in range(d)]
+            return split_spec(qh, [F(s, n, c) for c in range(d)])
+        if name == "q":
+            return lambda s, n: r8(qn(s, n))
+        if name == "Sq":
+            return lambda s, n: r8(sv.SV(self.CSQ(z(s), z(n))))
+        if name in ("Sq_L", "Sq_T"):
+            k = 1 if name == "Sq_L" else 2
+            U = self.USL if name == "Sq_L" else self.UST
+            return lambda s, n: sv.ite(sv.cmp("!=", qn(s, n), 0), lambda: r8(_sum([_cabs2(x) for x in split(s, n)[k]])), lambda: sv.SV(U(z(s), z(n))))
+        c = int(name[-1])
+        if name.startswith("q"):
+            return lambda s, n: r8(sv.SV(self.CQ(z(s), z(n), z(c))))
+        if name.startswith("FFT"):
+            return lambda s, n: r8(F(s, n, c))
+        k = 1 if name.startswith("L_FFT") else 2
+        Ure, Uim = (self.ULre, self.ULim) if k == 1 else (self.UTre, self.UTim)
+
+        def lt(s, n):
+            nz = sv.cmp("!=", qn(s, n), 0)
+            v = lambda: sv.as_cx(r8(split(s, n)[k][c]))
+            return sv.Cx(sv.ite(nz, lambda: v().re, lambda: sv.SV(Ure(z(s), z(n), z(c)))), sv.ite(nz, lambda: v().im, lambda: sv.SV(Uim(z(s), z(n), z(c)))))
+        return lt
+
+    def dtype(self, name):
+        return "complex" if "FFT" in name else "float"
+
+    def table(self, s):
+        from pyvc import pandas_model as PM
+        order = _vf_order(self.d)
+        cols = {nm: A.new_arr((self.Q,), (lambda idx, f=self.col(nm): f(s, idx[0])), self.dtype(nm)) for nm in order}
+        return PM.new_df(cols, order, self.Q)
+
+    def ave(self, s, g, ci):
+        return sv.SV(self.AVE(sv.znum(s), sv.znum(g), z3.IntVal(ci)))
+
+    def ave_table(self, fn):
+        from pyvc import pandas_model as PM
+        cols = {nm: A.new_arr((self.G,), (lambda idx, ci=ci: fn(idx[0], ci)), "float") for ci, nm in enumerate(AVE_COLS)}
+        return PM.new_df(cols, AVE_COLS, self.G)
+
+
+def _df_eq_goals(got, want, order, n):
+    """[z3 goals]: `got` is a DataFrame with the columns `order`, n rows, and at an arbitrary row the values of `want` (both in cur())"""
+    from pyvc import pandas_model as PM
+    from pyvc.interp import Ref
+    if not (isinstance(got, Ref) and got.kind == "df"):
+        return [z3.BoolVal(False)]
+    g, w = PM.df_content(got), PM.df_content(want)
+    if list(g["order"]) != list(order):
+        return [z3.BoolVal(False)]
+    goals = []
+    if not A.dim_eq_syntactic(g["n"], n):
+        goals.append(sv.zb(sv.cmp("==", g["n"], n)))
+    b = sv.fresh_int("row")
+    inr = sv.and_(sv.cmp(">=", b, 0), sv.cmp("<", b, n))
+    for c in order:
+        x, y = g["cols"][c].get((b,)), w["cols"][c].get((b,))
+        goals.append(sv.zb(sv.implies(inr, _cx_eq(x, y))))
+    return goals
+
+
+def _vfc_loops():
+    """(lineno of the frame loop, lineno of the per-wave-vector loop nested in the header loop) of vector_fft_corr"""
+    import ast
+    node = load_module(MOD).defs["vector_fft_corr"]
+    top = [n for n in node.body if isinstance(n, ast.For)]
+    first = top[0].lineno if top else None
+    inner = None
+    for outer in top[1:]:
+        for n in ast.walk(outer):
+            if isinstance(n, ast.For) and n is not outer:
+                inner = n.lineno
+                break
+        if inner:
+            break
+    return first, inner
+
+
+class VectorFftCorr(Unit):
+    """vector_fft_corr(snapshots, qvector, vectors, dt, outputfile): frame-averaged spectra + per-wave-vector time correlation of the
+    FFT / T_FFT / L_FFT columns.  Callee contracts: vector_decomposition_sq (this module), time_correlation (C14.Spec)."""
+    module = MOD
+    qualname = "vector_fft_corr"
+    prop = "C15"
+    timeout = 10
+
+    def cases(self):
+        return [f"d={d}/{sp}/{o}" for d in (2, 3) for sp in ("linear", "log") for o in ("file",)] + ["d=2/linear/default-name"]
+
+    def setup(self, ctx, case):
+        from contracts import C14
+        from contracts.common import Traj
+        from pyvc.interp import Frame, Ref
+        from pyvc.loops import _SideGoal, AppendedSeq
+        from pyvc.pandas_model import df_content
+        from pyvc.state import Content, cur, use_state
+        from pyvc.libext.C15 import wide_content, _is_wide
+        d = int(case[2])
+        spacing = case.split("/")[1]
+        tr = Traj(ctx, d)
+        T, N = tr.T, tr.N
+        Q, G = ctx.int("Q"), ctx.int("G")
+        ctx.assume(Q >= 1)
+        ctx.assume(sv.and_(G >= 1, sv.cmp("<=", G, Q)))
+        ts0, h = ctx.int("ts0"), ctx.int("h")
+        TS = tr.TS
+        tsf = lambda j: sv.SV(TS(sv.znum(j)))
+        w = ctx.int("w")
+        if spacing == "linear":
+            # evenly spaced frames: ts_j = ts0 + j h, at least two frames
+            ctx.assume(T >= 2)
+            ctx.array_fact(TS.name(), lambda j: TS(j) == sv.znum(ts0) + j * sv.znum(h))
+        else:
+            ctx.assume(sv.or_(sv.cmp("==", T, 1),
+                              sv.and_(w >= 0, sv.cmp("<", w, sv.sub(T, 1)),
+                                      sv.cmp("!=", sv.sub(tsf(sv.add(w, 1)), tsf(w)), sv.sub(tsf(1), tsf(0))))))
+        V = ctx.array("v", (T, N, d), "float", origin="argument vectors")
+        QV = ctx.array("qvector", (Q, d), "int", origin="argument qvector")
+        dt = ctx.real("dt")
+        snaps = tr.snapshots()
+        of = "" if case.endswith("default-name") else "corr"
+        FT = FrameTables(d, Q, G)
+        I = z3.IntSort()
+        st0 = ctx.state
+        fname = f"{MOD}.{self.qualname}"
+
+        # ---------------------------------------------------------------- callee contract: vector_decomposition_sq
+        def vdsq(interp, args, kwargs):
+            """requires: snapshot is frame s of the trajectory; qvector is the caller's wave-vector array; vector = vectors[s] (N, d);
+            outputfile = "" (nothing is written per frame); ensures: (table of frame s, averaged table of frame s), see FrameTables"""
+            a = dict(zip(["snapshot", "qvector", "vector", "outputfile"], args))
+            a.update(kwargs)
+            st = cur()
+            snap = a.get("snapshot")
+            pos = snap.content.get("positions") if isinstance(snap, Ref) and snap.kind == "obj" else None
+            s = None
+            if isinstance(pos, A.Arr) and pos.ndim == 2:
+                i0, c0 = sv.fresh_int("pi"), sv.fresh_int("pc")
+                t = pos.get((i0, c0))
+                if isinstance(t, sv.SV) and z3.is_app(t.t) and t.t.decl().name() == tr.POS.name() and t.t.arg(1).eq(i0.t) and t.t.arg(2).eq(c0.t):
+                    s = sv.wrap(t.t.arg(0))
+            if s is None:
+                st.require(False, "call:vector_decomposition_sq:pre:snapshot-is-a-frame-of-the-trajectory")
+                raise sv.EngineError("vector_decomposition_sq summary: snapshot argument is not a frame of the trajectory")
+            st.require(sv.and_(sv.cmp(">=", s, 0), sv.cmp("<", s, T)), "call:vector_decomposition_sq:pre:snapshot-is-a-frame-of-the-trajectory")
+            bl = snap.content.get("boxlength")
+            ok = isinstance(bl, A.Arr) and bl.ndim == 1
+            st.require(bool(ok), "call:vector_decomposition_sq:pre:snapshot-boxlength")
+            if ok:
+                c1 = sv.fresh_int("bc")
+                st.require(sv.implies(sv.and_(sv.cmp(">=", c1, 0), sv.cmp("<", c1, d)), sv.cmp("==", bl.get((c1,)), tr.bl(s, c1))),
+                           "call:vector_decomposition_sq:pre:snapshot-boxlength")
+            st.require(sv.cmp("==", snap.content.get("nparticle"), N), "call:vector_decomposition_sq:pre:nparticle")
+            _same_real_array(a.get("qvector"), QV, "call:vector_decomposition_sq:pre:qvector-is-the-wave-vector-array")
+            row = A.new_arr((N, d), lambda idx: V.get((s, idx[0], idx[1])), "float")
+            _same_real_array(a.get("vector"), row, "call:vector_decomposition_sq:pre:vector=vectors[frame]")
+            st.require(a.get("outputfile", "") == "", "call:vector_decomposition_sq:pre:no-per-frame-file")
+            return (FT.table(s), FT.ave_table(lambda g, ci: FT.ave(s, g, ci)))
+
+        # ---------------------------------------------------------------- callee contract: time_correlation (C14)
+        tc_calls = []
+
+        def tc_table(cond):
+            """C14 contract for a rank-2 complex condition of shape (T, d) (the d components are the `particles` of the callee):
+            t[k] = (ts_k - ts_0) dt, time_corr[k] = C(k)/C(0)"""
+            from pyvc import pandas_model as PM
+            spec = C14.Spec(cond, 2, None, T, d)
+            c0 = sv.SV(spec.C(0, spacing))
+            tcol = A.new_arr((T,), lambda idx: sv.mul(sv.to_real(sv.sub(tsf(idx[0]), tsf(0))), dt), "float")
+            ccol = A.new_arr((T,), lambda idx: sv.div(sv.SV(spec.C(idx[0], spacing)), c0), "float")
+            return PM.new_df({"t": tcol, "time_corr": ccol}, ["t", "time_corr"], T), c0
+
+        def tcorr(interp, args, kwargs):
+            a = dict(zip(["snapshots", "condition", "dt", "outputfile"], args))
+            a.update(kwargs)
+            st = cur()
+            st.require(getattr(a.get("snapshots"), "sid", None) == snaps.sid, "call:time_correlation:pre:snapshots-is-the-trajectory")
+            cond = a.get("condition")
+            ok = isinstance(cond, A.Arr) and cond.ndim == 2 and cond.dtype == "complex" and A.dim_conc(cond.shape[1]) and cond.shape[1] == d
+            st.require(bool(ok), "call:time_correlation:pre:condition-is-a-complex-(T,d)-array")
+            if not ok:
+                raise sv.EngineError("time_correlation summary: condition")
+            A.require_dim_eq(cond.shape[0], T, "call:time_correlation:pre:condition-has-one-row-per-frame")
+            exp = inp.get("expect")
+            if exp is not None:
+                _same_cx_array(cond, X_of(exp[0], exp[1]), "call:time_correlation:pre:condition=columns-of-this-header-at-this-wave-vector-over-frames")
+            st.require(sv.cmp("==", a.get("dt", sv.to_frac(0.002)), dt), "call:time_correlation:pre:dt")
+            st.require(a.get("outputfile", "") == "", "call:time_correlation:pre:no-output-file")
+            # spacing of the frames as the callee sees it (its contract has one clause per kind of spacing)
+            j = sv.fresh_int("tj")
+            if spacing == "linear":
+                st.require(sv.cmp(">=", T, 2), "call:time_correlation:pre:evenly-spaced-frames")
+                st.require(sv.implies(sv.and_(sv.cmp(">=", j, 0), sv.cmp("<", j, T)), sv.cmp("==", tsf(j), sv.add(ts0, sv.mul(j, h)))),
+                           "call:time_correlation:pre:evenly-spaced-frames")
+            else:
+                st.require(sv.or_(sv.cmp("==", T, 1), sv.and_(w >= 0, sv.cmp("<", w, sv.sub(T, 1)),
+                                                           sv.cmp("!=", sv.sub(tsf(sv.add(w, 1)), tsf(w)), sv.sub(tsf(1), tsf(0))))),
+                           "call:time_correlation:pre:unevenly-spaced-frames")
+            df, c0 = tc_table(cond)
+            # precondition of vector_fft_corr (statement: the correlation is normalised by its lag-zero value): instance for this call
+            st.assume(sv.cmp("!=", c0, 0))
+            tc_calls.append(1)
+            return df
+
+        def X_of(H, n):
+            """condition_{H,n}: (T, d) complex array, X[t, c] = column H<c> of frame t's table at row n"""
+            fs = [FT.col(f"{H}{c}") for c in range(d)]
+            return A.new_arr((T, d), lambda idx: A._pick([sv.as_cx(f(idx[0], n)) for f in fs], idx[1]) if not sv.is_conc(idx[1]) else sv.as_cx(fs[int(idx[1])](idx[0], n)), "complex")
+
+        ctx.interp.summaries[VDSQ] = vdsq
+        ctx.interp.summaries[TCORR] = tcorr
+
+        # ---------------------------------------------------------------- written invariant of the frame loop
+        def side(kind, goals, s2, where, clause=None):
+            for g in goals:
+                sg = _SideGoal(kind, g, s2.all_assumptions(), where)
+                if clause:
+                    sg.clause = clause
+                st0.side.append(sg)
+
+        def frame_loop(interp, s, frame, st, lo, hi, item_fn):
+            """after k >= 1 frames:  spectra = sum_{t<k} (averaged table of frame t)  (a DataFrame, columns q, Sq, Sq_T, Sq_L, G rows),
+            vectors_fft = [table of frame 0, ..., table of frame k-1]"""
+            where = f"{frame.fname}:{s.lineno}"
+            lst = frame.env.get("vectors_fft")
+            if not (isinstance(lst, Ref) and lst.kind == "list" and not isinstance(lst.content, A.SeqVal) and len(lst.content) == 0) \
+                    or not (sv.is_conc(lo) and lo == 0):
+                raise sv.EngineError("vector_fft_corr frame loop: unexpected pre-state (vectors_fft must be an empty list)")
+            seq_fn = lambda t: FT.table(t)
+
+            def inv_spectra(k):
+                return FT.ave_table(lambda g, ci: Sum(0, k, lambda t: FT.ave(t, g, ci)))
+
+            def run(kv, spectra, listed, extra):
+                fr = Frame(frame.module, dict(frame.env), frame.fname)
+                st2 = st.fork()
+                st2.pc = list(st.pc) + [sv.zb(sv.cmp(">=", kv, lo)), sv.zb(sv.cmp("<", kv, hi))] + extra
+                with use_state(st2):
+                    if spectra is not None:
+                        fr.env["spectra"] = spectra()
+                    if listed is not None:
+                        c = st2.heap[lst.sid]
+                        st2.heap[lst.sid] = Content("list", A.SeqVal(listed, seq_fn), c.meta)
+                    interp.assign(s.target, item_fn(kv), fr)
+                    outs = interp.exec_block_paths(s.body, fr, st2)
+                normal = [(f2, s2) for f2, s2, out in outs if out[0] == "normal"]
+                if len(outs) != 1 or len(normal) != 1:
+                    raise sv.EngineError("vector_fft_corr frame loop: body does not have a single normal path")
+                return normal[0]
+
+            def check(f2, s2, kv, kind):
+                nxt = A.simp(sv.add(kv, 1))
+                with use_state(s2):
+                    side(kind, _df_eq_goals(f2.env.get("spectra"), inv_spectra(nxt), AVE_COLS, G), s2, where, "spectra:loop-invariant")
+                    c = s2.heap[lst.sid].data
+                    if sv.is_conc(kv):
+                        okl = isinstance(c, tuple) and len(c) == 1
+                        last = c[0] if okl else None
+                    else:
+                        okl = isinstance(c, AppendedSeq) and c.base_fn is seq_fn and A.dim_eq_syntactic(c.n, kv)
+                        last = c.last if okl else None
+                    goals = _df_eq_goals(last, FT.table(kv), _vf_order(d), Q) if okl else [z3.BoolVal(False)]
+                    side(kind, goals, s2, where, "vectors_fft:loop-invariant")
+            f2, s2 = run(lo, None, None, [])
+            check(f2, s2, lo, "loop-init")
+            k = sv.fresh_int("k")
+            f3, s3 = run(k, lambda: inv_spectra(k), k, [sv.zb(sv.cmp(">=", k, 1))])
+            check(f3, s3, k, "loop-step")
+            # post-state
+            frame.env["spectra"] = inv_spectra(hi)
+            c = st.heap[lst.sid]
+            st.heap[lst.sid] = Content("list", A.SeqVal(hi, seq_fn), c.meta)
+            last = A.simp(sv.sub(hi, 1))
+            interp.assign(s.target, item_fn(last), frame)
+            frame.env["vector_fft"] = FT.table(last)
+            frame.env["ave_sqresults"] = FT.ave_table(lambda g, ci: FT.ave(last, g, ci))
+
+        # ---------------------------------------------------------------- written invariant of the wave-vector loop (per header)
+        def tc_col(H, n):
+            """time_corr column of the callee's table for condition_{H,n}"""
+            df, _ = tc_table(X_of(H, n))
+            return df
+
+        def q_loop(interp, s, frame, st, lo, hi, item_fn):
+            """after k >= 1 wave vectors:  cal_data[:, j] = time_correlation(condition_{H,j})["time_corr"] for j < k and still 0 for j >= k;
+            medium = the callee's table for wave vector k-1"""
+            where = f"{frame.fname}:{s.lineno}"
+            H = frame.env.get("header")
+            cal = frame.env.get("cal_data")
+            if H not in HEADERS or not _is_wide(cal) or not (sv.is_conc(lo) and lo == 0):
+                raise sv.EngineError("vector_fft_corr wave-vector loop: unexpected pre-state")
+            cell0 = st.heap[cal.sid]
+            blk = wide_content(cal)["block"]
+            pre_block = blk.reader()
+
+            def inv_block(k):
+                def fn(idx):
+                    t, j = idx
+                    return sv.ite(sv.cmp("<", j, k), lambda: df_content(tc_col(H, j))["cols"]["time_corr"].get((t,)), lambda: pre_block(idx))
+                return fn
+
+            def run(kv, block_k, medium, extra):
+                fr = Frame(frame.module, dict(frame.env), frame.fname)
+                st2 = st.fork()
+                st2.pc = list(st.pc) + [sv.zb(sv.cmp(">=", kv, lo)), sv.zb(sv.cmp("<", kv, hi))] + extra
+                with use_state(st2):
+                    if block_k is not None:
+                        c = st2.heap[blk.sid]
+                        st2.heap[blk.sid] = Content("arr", A._memo(inv_block(block_k)), c.meta)
+                        fr.env["medium"] = medium()
+                    interp.assign(s.target, item_fn(kv), fr)
+                    inp["expect"] = (H, kv)
+                    try:
+                        outs = interp.exec_block_paths(s.body, fr, st2)
+                    finally:
+                        inp["expect"] = None
+                normal = [(f2, s2) for f2, s2, out in outs if out[0] == "normal"]
+                if len(outs) != 1 or len(normal) != 1:
+                    raise sv.EngineError("vector_fft_corr wave-vector loop: body does not have a single normal path")
+                return normal[0]
+
+            def check(f2, s2, kv, kind):
+                nxt = A.simp(sv.add(kv, 1))
+                with use_state(s2):
+                    same = s2.heap[cal.sid] is cell0 and _is_wide(f2.env.get("cal_data")) and f2.env["cal_data"].sid == cal.sid
+                    if not same:
+                        side(kind, [z3.BoolVal(False)], s2, where, f"{H}:cal_data:loop-invariant")
+                        return
+                    t, j = sv.fresh_int("t"), sv.fresh_int("j")
+                    inr = sv.and_(sv.cmp(">=", t, 0), sv.cmp("<", t, T), sv.cmp(">=", j, 0), sv.cmp("<", j, Q))
+                    got = s2.heap[blk.sid].data((t, j))
+                    if sv.is_conc(kv):
+                        # inv(lo + 1) at column j >= 0: j < lo + 1 iff j == lo (stated with the concrete column so that the callee's
+                        # Σ-terms are the ones of the call with n = lo)
+                        want = sv.ite(sv.cmp("==", j, kv), lambda: df_content(tc_col(H, kv))["cols"]["time_corr"].get((t,)), lambda: pre_block((t, j)))
+                    else:
+                        want = inv_block(nxt)((t, j))
+                    side(kind, [sv.zb(sv.implies(inr, sv.cmp("==", got, want)))], s2, where, f"{H}:cal_data:loop-invariant")
+                    side(kind, _df_eq_goals(f2.env.get("medium"), tc_col(H, kv), ["t", "time_corr"], T), s2, where, f"{H}:cal_data:loop-invariant")
+            f2, s2 = run(lo, None, None, [])
+            check(f2, s2, lo, "loop-init")
+            k = sv.fresh_int("k")
+            km1 = A.simp(sv.sub(k, 1))
+            f3, s3 = run(k, k, lambda: tc_col(H, km1), [sv.zb(sv.cmp(">=", k, 1))])
+            check(f3, s3, k, "loop-step")
+            # post-state
+            c = st.heap[blk.sid]
+            st.heap[blk.sid] = Content("arr", A._memo(inv_block(hi)), c.meta)
+            st.events.append(("store", blk.sid, where, list(st.pc)))
+            last = A.simp(sv.sub(hi, 1))
+            interp.assign(s.target, item_fn(last), frame)
+            frame.env["medium"] = tc_col(H, last)
+            frame.env.pop("condition", None)
+
+        l1, l2 = _vfc_loops()
+        if l1 is not None:
+            ctx.interp.loop_hints[(fname, "for", l1)] = frame_loop
+        if l2 is not None:
+            ctx.interp.loop_hints[(fname, "for", l2)] = q_loop
+        inp = dict(d=d, T=T, N=N, Q=Q, G=G, V=V, QV=QV, dt=dt, snaps=snaps, of=of, FT=FT, tsf=tsf, spacing=spacing, expect=None,
+                   X_of=X_of, tc_col=tc_col, tc_calls=tc_calls, watch=[V.sid, QV.sid])
+        kwargs = {"dt": dt}
+        if of:
+            kwargs["outputfile"] = of
+        return [snaps, QV, V], kwargs, inp
+
+    def clause_names(self, case):
+        names = ["returns-dict-with-exactly-the-keys-FFT,T_FFT,L_FFT", "spectra=frame-average-of-the-averaged-tables", "spectra:csv-file",
+                 "spectra:loop-invariant", "vectors_fft:loop-invariant", "frame:inputs-not-written"]
+        for H in HEADERS:
+            names += [f"{H}:frame-shape-and-columns", f"{H}:q-columns=round8(frame-0-table)", f"{H}:lag-columns=round8(time_correlation(condition_n).time_corr)",
+                      f"{H}:lag-column-labels=t-column-of-the-callee", f"{H}:npy-file=values", f"{H}:cal_data:loop-invariant"]
+        return names
+
+    def ensures(self, ctx, case, inp, out):
+        from pyvc.interp import Ref
+        from pyvc.libext.C15 import _is_wide, wide_content
+        from pyvc.pandas_model import df_content
+        d, T, Q, G, FT, of = inp["d"], inp["T"], inp["Q"], inp["G"], inp["FT"], inp["of"]
+        res = out.value
+        ok = isinstance(res, Ref) and res.kind == "dict" and list(res.content.keys()) == HEADERS
+        yield "returns-dict-with-exactly-the-keys-FFT,T_FFT,L_FFT", bool(ok)
+        # ---- spectra: the frame written to outputfile + ".spectra.csv"
+        csvs = [t for t in out.state.trace if t and t[0] == "to_csv"]
+        good = len(csvs) == 1 and csvs[0][1] == of + ".spectra.csv" and list(csvs[0][3]) == AVE_COLS and csvs[0][4] == "%.8f"
+        yield "spectra:csv-file", bool(good)
+        g = ctx.int("g")
+        if good:
+            ing = sv.and_(sv.cmp(">=", g, 0), sv.cmp("<", g, G))
+            eqs = [sv.cmp("==", csvs[0][5], G)]
+            for ci, nm in enumerate(AVE_COLS):
+                want = sv.div(Sum(0, T, lambda t: FT.ave(t, g, ci)), T)
+                eqs.append(sv.implies(ing, sv.cmp("==", csvs[0][2][nm].get((g,)), want)))
+            yield "spectra=frame-average-of-the-averaged-tables", sv.and_(*eqs)
+        else:
+            yield "spectra=frame-average-of-the-averaged-tables", False
+        stores = [e for e in out.state.events if e[0] == "store" and e[1] in inp["watch"]]
+        yield "frame:inputs-not-written", len(stores) == 0
+        if not ok:
+            return
+        n, k = ctx.int("n"), ctx.int("k")
+        inn = sv.and_(sv.cmp(">=", n, 0), sv.cmp("<", n, Q))
+        ink = sv.and_(sv.cmp(">=", k, 0), sv.cmp("<", k, T))
+        saves = [t for t in out.state.trace if t and t[0] == "np.save"]
+        qcols = [f"q{c}" for c in range(d)] + ["q"]
+        r8 = lambda v: sv.round_dec(v, 8)
+        for hi_, H in enumerate(HEADERS):
+            fr = res.content[H]
+            shape_ok = _is_wide(fr)
+            if shape_ok:
+                c = wide_content(fr)
+                shape_ok = c["pre"]["order"] == qcols and c["index"] is None and c["block"] is not None and A.dim_eq_syntactic(c["n"], Q) \
+                    and A.dim_eq_syntactic(c["block"].shape[0], Q) and A.dim_eq_syntactic(c["block"].shape[1], T) and A.dim_eq_syntactic(c["labels"].shape[0], T)
+            yield f"{H}:frame-shape-and-columns", bool(shape_ok)
+            if not shape_ok:
+                continue
+            yield (f"{H}:q-columns=round8(frame-0-table)",
+                   sv.implies(inn, sv.and_(*[sv.cmp("==", c["pre"]["cols"][nm].get((n,)), r8(FT.col(nm)(0, n))) for nm in qcols])))
+            want_tc = df_content(inp["tc_col"](H, n))["cols"]
+            yield (f"{H}:lag-columns=round8(time_correlation(condition_n).time_corr)",
+                   sv.implies(sv.and_(inn, ink), sv.cmp("==", c["block"].get((n, k)), r8(want_tc["time_corr"].get((k,))))))
+            tk = sv.mul(sv.to_real(sv.sub(inp["tsf"](k), inp["tsf"](0))), inp["dt"])
+            yield f"{H}:lag-column-labels=t-column-of-the-callee", sv.implies(ink, sv.cmp("==", c["labels"].get((k,)), tk))
+            mine = [t for t in saves if t[1] == of + "." + H + ".npy"]
+            if len(mine) == 1 and len(saves) == 3 and isinstance(mine[0][2], A.Arr) and mine[0][2].ndim == 2:
+                arr = mine[0][2]
+                j = ctx.int("j")
+                p = d + 1
+                wantv = sv.ite(sv.cmp("<", j, p), lambda: A._pick([c["pre"]["cols"][nm].get((n,)) for nm in qcols], sv.minv(j, p - 1)),
+                               lambda: c["block"].get((n, A.simp(sv.sub(j, p)))))
+                inj = sv.and_(sv.cmp(">=", j, 0), sv.cmp("<", j, sv.add(p, T)))
+                yield (f"{H}:npy-file=values", sv.and_(sv.cmp("==", arr.shape[0], Q), sv.cmp("==", arr.shape[1], sv.add(p, T)),
+                                                       sv.implies(sv.and_(inn, inj), sv.cmp("==", arr.get((n, j)), wantv))))
+            else:
+                yield f"{H}:npy-file=values", False
+
+    def replay(self, case, clause, model, seed):
+        return _replay_fft_corr(case, clause, model, seed)
+
+
+def _same_real_array(a, b, what):
+    """call-site obligation: array argument `a` has the shape and, at an arbitrary index, the elements of `b`"""
+    from pyvc.state import cur
+    st = cur()
+    if not isinstance(a, A.Arr) or a.ndim != b.ndim or a.dtype != b.dtype:
+        st.require(False, what)
+        return
+    if a.sid == b.sid and a.view is None and b.view is None:
+        return
+    idx, conds = [], []
+    for k in range(b.ndim):
+        A.require_dim_eq(a.shape[k], b.shape[k], what)
+        t = sv.fresh_int("ai")
+        idx.append(t)
+        conds.append(sv.and_(sv.cmp(">=", t, 0), sv.cmp("<", t, b.shape[k])))
+    st.require(sv.implies(sv.and_(*conds), _cx_eq(a.get(tuple(idx)), b.get(tuple(idx)))), what)
+
+
+_same_cx_array = _same_real_array
+
+
+def _replay_fft_corr(case, clause, model, seed):
+    return {"ran": False, "failed": False, "error": "todo"}
+
+
+UNITS = [ParticipationRatio(), LocalAlignment(), PhaseQuotient(), DivergenceCurl(), Vibrability(), VectorDecompositionSq(), VectorFftCorr()]
 # callee contracts of other properties used at call sites: their units are re-verified with this check
 from contracts.common import callee_units as _callee_units   # noqa: E402
 UNITS = UNITS + _callee_units([('C02', None), ('C05', {'read_neighbors'}), ('C13', {'conditional_sq'})], UNITS)
